@@ -12,6 +12,9 @@ DRIVERS = {
     'pp_reader': {'src': 'replay/drivers/pp_reader.cpp', 'flags': [], 'search_arg': '7'},
     'call_binary': {'vm': 'call_binary'},
     'sqf_yylex': {'vm': 'sqf_yylex'},
+    'runtime_execute': {'vm': 'runtime_step'},
+    'runtime_sched': {'vm': 'runtime_step'},
+    'frame': {'vm': 'runtime_step'},
 }
 
 _vm_build = None
@@ -149,6 +152,17 @@ def run_known_replay(k):
             p = subprocess.run([sys.executable, os.path.join(ROOT, 'replay', 'api', 'isolation.py'), os.path.join(d, 'libsqfvm.so'), rp['probe'], rp['other']],
                                capture_output=True, timeout=120)
             return p.returncode == 1, p.stdout.decode('utf-8', 'replace')[-300:].replace('\n', ' | ')
+        if kind == 'api_seq':
+            # several calls on ONE instance; reproduced when call number rp['index'] returns rp['bad_rc']
+            import statics
+            d, log = statics.scratch_build('libsqfvm')
+            if d is None: return False, 'libsqfvm could not be built: ' + log[-200:]
+            p = subprocess.run([sys.executable, os.path.join(ROOT, 'replay', 'api', 'sequence.py'), os.path.join(d, 'libsqfvm.so'), str(rp.get('max_runtime', 5))] + rp['calls'],
+                               capture_output=True, timeout=120)
+            lines = [l for l in p.stdout.decode('utf-8', 'replace').split('\n') if '->' in l]
+            if len(lines) <= rp['index']: return False, 'sequence did not complete: ' + p.stderr.decode('utf-8', 'replace')[-200:]
+            m = re.search(r"-> (-?\d+) ", lines[rp['index']])
+            return (m is not None and int(m.group(1)) == rp['bad_rc']), lines[rp['index']][:300]
         if kind == 'sqfvm':
             import vmreplay
             return vmreplay.run(rp)
